@@ -570,7 +570,7 @@ def check_one(top, lvl, op, k, fails, tag):
                             fail("exit-not-joined:" + pre[n][0], (n, post[n][1]))
                     elif pre[n] != post[n]:
                         fail("other-block-changed:" + pre[n][0], n)
-                now = [n for n in lvl.graph if not lvl.graph[n].jump_targets]
+                now = [n for n in lvl.graph if not [t for t in lvl.graph[n]._jump_targets if t not in lvl.graph[n].backedges]]
                 if now != [r]:
                     fail("not-exactly-one-exit", now)
     elif prim == "join_tails_and_exits":
